@@ -114,6 +114,9 @@ type absCtx struct {
 	// did not answer / its proof covers neither known format): the peer presents
 	// the certificate WITHOUT the proof it could not get
 	OracleFailed bool `json:"relay_failed,omitempty"`
+	// level conc: the second dial did not start while the first handshake was held
+	// back (a host that serialises its dials): "other" is then just a foreign nonce
+	NotInterleaved bool `json:"dials_did_not_overlap,omitempty"`
 }
 
 // errHarness marks failures that no implementation under test can cause.
@@ -446,6 +449,13 @@ func nonceNum(s string, ctx absCtx) int {
 		return 1
 	case "foreign":
 		return 2
+	case "other":
+		// the nonce the honest host drew for its OTHER, overlapping dial
+		// (Tls.conc_nonce); just some other nonce if the dials did not overlap
+		if ctx.NotInterleaved {
+			return 2
+		}
+		return 4
 	}
 	panic("bad nonce " + s)
 }
